@@ -175,6 +175,11 @@ SLICES = {
                   "consts": {"quick": {"K": 3, "Dev": "{}", "MechBound": 99, "MaxL": 1, "MaxM": 1, "Mode": '"adv"'},
                              "thorough": {"K": 4, "Dev": "{}", "MechBound": 99, "MaxL": 2, "MaxM": 2, "Mode": '"adv"'}},
                   "flip": {"quick": 41, "thorough": 3}},
+    "protocol": {"module": "MC_protocol", "invariants": ["C05", "C06", "Refines", "NoMixAndMatch", "NoReplay", "Unlinkable", "Export"],
+                 "constraint": "NetBound", "view": "PView",
+                 "consts": {"quick": {"K": 2, "Dev": "{}", "MechBound": 99, "Holders": "{1, 2}", "MaxNet": 4},
+                            "thorough": {"K": 2, "Dev": "{}", "MechBound": 99, "Holders": "{1, 2}", "MaxNet": 5}},
+                 "flip": {"quick": 0, "thorough": 0}},
     "shape_sig": {"module": "MC_shape", "invariants": ["C01", "C02", "C12", "Refines", "Export"],
                   "consts": {"quick": {"K": 2, "Dev": "{}", "MechBound": 4, "Ls": "{0, 1, 2, 31, 32, 33, 128, 129, 257}", "Ms": "{}", "Fam": '"sig"'},
                              "thorough": {"K": 2, "Dev": "{}", "MechBound": 4, "Ls": "{0, 1, 2, 3, 31, 32, 33, 64, 127, 128, 129, 255, 256, 257, 1000, 2000}", "Ms": "{}", "Fam": '"sig"'}},
@@ -214,8 +219,8 @@ PROPS = {
             "level_text": MC_TEXT + "slice `proof_adv`: every single edit of the verifier's statement (message, index, pair added/removed, lists of different lengths, duplicate index with forged message, header, presentation header, key, suite, interface), every tampered field and +-1 scalar of the encoding (with bit flips), and the attacker's family of proofs assembled from public data (identity / multiples of the verifier's Bv / unrelated points, responses solved) through from_bytes and through serde."},
     "C05": {"slices": ["blind", "shape_blind"], "traces": "blind", "tally": ["C05"], "title": "Blind BBS completeness",
             "level_text": MC_TEXT + "slice `blind`: (L, M) up to the bounds, with and without commitment (and commitment to zero messages), ALL pairs of disclosure choices, absent/empty presentations, round trips; blind signature octets equal the specification's."},
-    "C06": {"slices": ["blind_adv", "shape_blind"], "traces": "blind", "tally": ["C06"], "title": "Blind BBS soundness",
-            "level_text": MC_TEXT + "slice `blind_adv`: tampered / truncated / extended / cross-suite commitments shown to the signer (with bit flips of the commitment octets), every single edit of the inputs of verify_blind_sign and blind_proof_verify including L +- 1, aliasing of committed and signer messages, duplicate indexes with forged messages, plain-interface verification."},
+    "C06": {"slices": ["blind_adv", "shape_blind", "protocol"], "traces": "blind", "tally": ["C06"], "title": "Blind BBS soundness",
+            "level_text": MC_TEXT + "slice `blind_adv`: tampered / truncated / extended / cross-suite commitments shown to the signer (with bit flips of the commitment octets), every single edit of the inputs of verify_blind_sign and blind_proof_verify including L +- 1, aliasing of committed and signer messages, duplicate indexes with forged messages, plain-interface verification; slice `protocol`: issuance and presentation as a multi-party protocol over an attacker-controlled network (mix-and-match of commitments and signatures between the sessions of two holders, replay of presentations under another verifier nonce), every interleaving within the message bound, invariants NoMixAndMatch, NoReplay, Unlinkable."},
     "C07": {"kind": "rng", "title": "Fresh blinding",
             "level_text": "The specification Rng.tla (per-thread streams of globally unique draws, the consumption map of proof_gen / commit / random keys / blinding factors) is model-checked by TLC over all interleavings of three threads (invariants Fresh, Consumption; the shared-stream variant is shown to violate Fresh). Randomness traces recorded from the real library on 1, 2 and 16 threads and in separately started processes - every production draw (hook), the blinding scalars recomputed by the witness holder, group elements, secrets, and scans of the encodings for hidden values - are validated by TLC against Trace_Rng.tla: all values pairwise distinct, non-zero, of full size, zero scan hits.",
             "level_note": "Distinctness / size / non-zero only; the unpredictability of rand::thread_rng is trusted. Trusted base: TLC, the rng_draw hook (add-only), SHA-256 digests truncated to 96 bits."},
@@ -255,7 +260,8 @@ def seed():
 
 def run_slice(name, tier, prop):
     sl = SLICES[name]
-    rc, out = tlc(sl["module"], cfg_text(sl["consts"][tier], invariants=sl["invariants"]), "%s_%s_%s" % (prop, name, tier))
+    rc, out = tlc(sl["module"], cfg_text(sl["consts"][tier], invariants=sl["invariants"], constraint=sl.get("constraint"), view=sl.get("view")),
+                  "%s_%s_%s" % (prop, name, tier))
     err = tlc_error(out)
     res = {"slice": name, "constants": sl["consts"][tier], "stats": tlc_stats(out), "tlc_error": None, "violated_invariant": None}
     if err:
@@ -487,9 +493,21 @@ def run_codec_property(prop, tier):
             if mm["property"] == prop:
                 violations.append(mm)
     evals = rep["checks"].get(prop, 0) + sum(v["checks"] for v in extra.values())
+    lemmas = None
+    if prop == "C08":
+        # unbounded arithmetic lemmas (all naturals), discharged symbolically by Apalache
+        p = sh(["timeout", "600", "apalache-mc", "check", "--init=Init", "--next=Next", "--inv=Lemmas", "--length=0",
+                "--out-dir=" + os.path.join(BUILD, "apalache"), "Lemmas.tla"], cwd=os.path.join(SPEC, "apalache"), check=False, timeout=700)
+        if "The outcome is: NoError" in p.stdout:
+            lemmas = "IndexTranslation, ProofLength, UpdateGuards, NaturalM hold for all naturals (Apalache, SMT)"
+        elif "violat" in p.stdout.lower():
+            violations.append({"property": prop, "what": "Apalache: an arithmetic lemma of spec/apalache/Lemmas.tla is violated (specification level)"})
+        else:
+            lemmas = "apalache-mc did not complete (tool problem, not counted): " + p.stdout[-200:]
     ev = {
         "property_id": prop, "tier": tier, "seed": seed(), "level": "model_checking",
         "coverage": {
+            "unbounded_lemmas": lemmas,
             "states": stats["distinct"], "transitions": stats["states"], "traces_validated_against_impl": 0,
             "cases_replayed_into_impl": rep["cases"] + sum(v["cases"] for v in extra.values()),
             "evaluations": evals, "distinct_nontrivial": n,
@@ -696,7 +714,7 @@ def run_det_property(prop, tier):
 CL = {
     "C13": {"inv": ["C13toy", "ExportDerivs"], "drivers": ["sig"], "ops": {"CLVerify", "CLSigFacts", "CLDisclose", "CLRoundTrip"}},
     "C14": {"inv": ["C15used"], "drivers": ["blind"], "ops": {"CLIssue", "CLUpdate", "CLLeaf:zkpok"}},
-    "C15": {"inv": ["C15used"], "drivers": ["pok"], "ops": {"CLPoK", "CLLeaf:spok", "CLFormat:spok"}},
+    "C15": {"inv": ["C15used", "ReportLinks"], "drivers": ["pok"], "ops": {"CLPoK", "CLLeaf:spok", "CLFormat:spok", "CLInfoLink"}},
     "C16": {"inv": ["C16anchored"], "drivers": ["boudot"], "ops": {"CLRange", "CLLeaf:range", "CLFormat:range"}},
     "C17": {"inv": ["C17noOpenings"], "drivers": ["leak", "blind"], "ops": {"CLFormat:zkpok", "CLFormat:spok", "CLOpenings", "CLDictionary", "CLUnblinded", "CLSharedBlinding"}},
     "C18": {"inv": ["C18toy"], "drivers": ["keys", "sig"], "ops": {"CLKeyFacts", "CLRandomFacts", "CLRoundTrip"}},
@@ -777,6 +795,8 @@ def run_cl_property(prop, tier):
         rc, o2 = tlc("MC_cl", cfg_text(dict(consts, Dev=dev_open, Bound=12), init="Init", invariants=[i for i in spec["inv"] if i != "ExportDerivs"]), "%s_cl_asis" % prop, workers=1, timeout=3000)
         m = re.search(r"invariant of (\w+) is equal to FALSE|Invariant (\w+) is violated", o2)
         spec_level = (m.group(1) or m.group(2)) if m else None
+    ml = re.search(r'<<"MISSING-LINKS", "(.*)">>', out)
+    missing_links = json.loads(json.loads('"' + ml.group(1) + '"')) if ml else None
     derivs = os.path.join(BUILD, "cl_derivs_%s.ndjson" % prop)
     with open(derivs, "w") as f:
         for m in re.finditer(r'^<<"CASE", "(.*)">>$', out, re.M):
@@ -786,6 +806,7 @@ def run_cl_property(prop, tier):
     nev = 0
     samples = []
     logs = []
+    info = []
     for suite, nkeys in suites:
         for drv in spec["drivers"]:
             raw = os.path.join(BUILD, "cl_%s_%s_%s_%s.ndjson" % (prop, drv, suite, tier))
@@ -805,6 +826,7 @@ def run_cl_property(prop, tier):
                     f.write(json.dumps(e) + "\n")
             nev += len(keep)
             samples += keep[:2]
+            info += [e for e in keep if e["op"] == "CLInfoLink"]
             ok, matched, ev0 = cl_validate(path, "{}", "%s_trace_%s_%s" % (prop, drv, suite))
             entry = {"driver": drv, "suite": suite, "events": len(keep), "intended": ok}
             if not ok:
@@ -834,6 +856,7 @@ def run_cl_property(prop, tier):
             "rule": "one event per observation of the real library (feature cl03): every hidden-position subset, mismatch family, derivation exported by TLC, integer leaf perturbation, interval width / position; the bounded slices of MC_cl.tla are constant-level invariants evaluated by TLC (toy RSA groups, formats, anchoring, mask table)",
             "samples": samples[:4], "logs": logs, "slice_invariants": spec["inv"], "slice_constants": consts,
             "as_is_specification_violates": spec_level, "known_findings_reobserved": known, "exhaustive": False,
+            "informational_missing_links_F11": missing_links, "informational_events": info[:6],
         },
         "assumptions": ["CL03 runs against a GMP built without assembly (no m4 in the sandbox)",
                         "toy RSA moduli from safe primes below Bound; attribute size 3 bits in the toy model",
